@@ -81,6 +81,66 @@ func (e *Engine) localAliases(fn *ssa.Function) map[string]string {
 	return out
 }
 
+// ---- renamed struct fields ----
+// Contracts also name struct fields (d.offset, fs.cached). The field lists of the repository's struct types are recorded
+// next to the locals ("struct:<pkg>.<Type>"). When a contract names a field that no longer exists and the struct still
+// has the same number of fields with the same types in the same order, the name is bound to the field now at the
+// recorded position: a refactor that only renames a field is not reported. A changed type, an added or a removed
+// field disables the fallback for that struct and the contract fails to resolve, as before.
+
+func structFieldSigs(st *types.Struct) []localSig {
+	q := func(p *types.Package) string { return p.Path() }
+	var out []localSig
+	for i := 0; i < st.NumFields(); i++ {
+		out = append(out, localSig{st.Field(i).Name(), types.TypeString(st.Field(i).Type(), q)})
+	}
+	return out
+}
+
+func structKey(n *types.Named) string {
+	if n.Obj().Pkg() == nil {
+		return "struct:" + n.Obj().Name()
+	}
+	return "struct:" + n.Obj().Pkg().Path() + "." + n.Obj().Name()
+}
+
+// fieldAlias: the current name of a field recorded under oldName in struct type t (or "" when there is none).
+func fieldAlias(t types.Type, oldName string) string {
+	if recordedLocals == nil {
+		loadRecordedLocals()
+	}
+	t = types.Unalias(t)
+	if p, ok := t.Underlying().(*types.Pointer); ok {
+		t = types.Unalias(p.Elem())
+	}
+	n, ok := t.(*types.Named)
+	if !ok {
+		return ""
+	}
+	st, ok := n.Underlying().(*types.Struct)
+	if !ok {
+		return ""
+	}
+	rec, ok := recordedLocals[structKey(n)]
+	if !ok {
+		return ""
+	}
+	cur := structFieldSigs(st)
+	if len(cur) != len(rec) {
+		return ""
+	}
+	hit := ""
+	for i := range cur {
+		if cur[i].Type != rec[i].Type {
+			return ""
+		}
+		if rec[i].Name == oldName && cur[i].Name != oldName {
+			hit = cur[i].Name
+		}
+	}
+	return hit
+}
+
 func cmdLocals(args []string) {
 	fs := flag.NewFlagSet("locals", flag.ExitOnError)
 	repo := fs.String("repo", "/repo", "repository")
@@ -97,10 +157,30 @@ func cmdLocals(args []string) {
 		if fn == nil || fn.Blocks == nil || c.Iface || c.Assumed != "" {
 			continue
 		}
-		if len(c.Loops) == 0 && len(c.Ranges) == 0 && len(fn.FreeVars) == 0 {
+		if len(c.Loops) == 0 && len(c.Ranges) == 0 && len(fn.FreeVars) == 0 && len(c.Callsites) == 0 {
 			continue
 		}
 		res[key] = fnLocals(fn)
+	}
+	// the field lists of the repository's struct types
+	for _, p := range eng.pkgs {
+		if p.Types == nil {
+			continue
+		}
+		sc := p.Types.Scope()
+		for _, name := range sc.Names() {
+			tn, ok := sc.Lookup(name).(*types.TypeName)
+			if !ok {
+				continue
+			}
+			n, ok := types.Unalias(tn.Type()).(*types.Named)
+			if !ok {
+				continue
+			}
+			if st, ok := n.Underlying().(*types.Struct); ok && st.NumFields() > 0 {
+				res[structKey(n)] = structFieldSigs(st)
+			}
+		}
 	}
 	keys := make([]string, 0, len(res))
 	for k := range res {
